@@ -24,9 +24,11 @@ from .gen.formulas import Config, FormulaGen
 TRUSTED = [
     "Coq 8.16.1 kernel; vm_compute only inside the generated correspondence case files; no native_compute",
     "core/Sem.v is the specification of 'value under an interpretation' (trusted, cross-validated elsewhere)",
-    "hand models models/{Nnf,Aig,Partition,Qelim,TimesDist,Prenex,PropTop}.v of pysmt/rewritings.py and pysmt/solvers/qelim.py, "
+    "hand models models/{Nnf,Aig,Partition,Qelim,TimesDist}.v of pysmt/rewritings.py and pysmt/solvers/qelim.py, "
     "tied to the repository under test by this run's correspondence (counts below); models/C10Local.v are local stand-ins for "
-    "FormulaManager constructors and the symbol->term MGSubstituter",
+    "FormulaManager constructors and the symbol->term MGSubstituter (same definitions as models/Ctors.v on well-formed nodes)",
+    "prenex_normal_form and propagate_toplevel are NOT modelled in Coq (models/PropTop.v covers only the final substitute-and-reassert "
+    "step, for the refutation witness): for them this check is the SEARCH oracle only",
     "the memoised DAG walk is replaced by structural recursion (licensed by DagWalk_proofs.walk_refines, C20/C14)",
     "tocoq.py (FNode -> Gallina literal); refeval.py (independent evaluator) for the SEARCH oracle only",
 ]
@@ -35,7 +37,11 @@ ASSUMPTIONS = [
     "Boolean (boolish: Boolean symbols, Boolean-valued applications, Boolean constants, theory relations); the truth-value forms "
     "(holds I (X t) <-> holds I t) need neither",
     "Boolean-sorted array reads as atoms are outside the theorems' fragment (NNFizer asserts on them)",
-    "propagate_toplevel is modelled and checked with do_simplify=False (the simplifier is C01's subject); the SEARCH oracle also runs the default do_simplify=True",
+    "identity-walker based models (Qelim, TimesDist) are compared on inputs without array values that carry assignments "
+    "(FormulaManager.Array drops default-valued entries and orders by id(): not modelled) and on bounded tree sizes",
+    "Shannon / self-substitution theorems: Boolean bound variables, quantifier-free atoms, constructor-normal nodes (qe_frag); "
+    "TimesDistributor theorem: +,-,* over leaves fixed by the walker, all denoting Int (resp. Real) under I (arith, kinded_*)",
+    "propagate_toplevel: the SEARCH oracle runs both do_simplify=False and the default do_simplify=True",
 ]
 
 CONNECTIVES = (op.AND, op.OR, op.NOT, op.IMPLIES, op.IFF)
@@ -97,6 +103,7 @@ class SkelGen(object):
             f = m.Ite(g(), g(), g())
         else:
             nv = r.choice([1, 1, 2, 2, 3])
+            nv = min(nv, getattr(self, "max_qvars", 3))
             vs = []
             for _ in range(nv):
                 t = r.choice(self.qtypes)
@@ -141,6 +148,20 @@ def aig_shape(f):
         elif n.is_or() or n.is_implies() or n.is_iff() or n.is_ite():
             return False
     return True
+
+
+def tree_size(f):
+    """Number of nodes of the tree unfolding (the Coq model works on trees)."""
+    memo = {}
+    for n in tocoq.topo([f]):
+        memo[n] = 1 + sum(memo[c] for c in n.args())
+    return memo[f]
+
+
+def has_array_assignments(f):
+    """FormulaManager.Array (dropping default-valued entries, ordering by id()) is not modelled by
+    C10Local.rebuild: identity-walker based rewriters are compared on inputs without such nodes."""
+    return any(n.node_type() == op.ARRAY_VALUE and len(n.args()) > 1 for n in tocoq.topo([f]))
 
 
 def quantifier_free(f):
@@ -222,7 +243,7 @@ class Batch(object):
         self.chk, self.rnd, self.name, self.tier = chk, rnd, name, tier
         self.cases = []       # (roots, body_fn)
         self.meta = []        # serialized input per case
-        self.stats = {"cases": 0, "impl_errors": 0, "oracle_checked": 0, "oracle_exact": 0, "nontrivial": 0}
+        self.stats = {"impl_errors": 0, "oracle_checked": 0}
 
     def n(self, quick, thorough):
         return quick if self.tier == "quick" else thorough
@@ -359,12 +380,19 @@ def run_qelim(b):
     push_env(env)   # FNode.substitute() goes through the GLOBAL environment's substituter
     try:
         sg = SkelGen(env, b.rnd, [BOOL], atom_cfg=Config(quantifiers=False, widths=(1, 2, 3), max_arity=3))
+        sg.max_qvars = 2
         for i in range(b.n(500, 6000)):
             f = sg.gen(b.rnd.randint(1, 4))
             which = i % 2
             cls = SelfSubstitutionQuantifierEliminator if which else ShannonQuantifierEliminator
             nm = "selfsub" if which else "shannon"
+            if tree_size(f) > 400 or has_array_assignments(f):
+                b.stats["skipped_unmodelled"] = b.stats.get("skipped_unmodelled", 0) + 1
+                continue
             out = cls(env).eliminate_quantifiers(f)
+            if tree_size(out) > 6000:
+                b.stats["skipped_large"] = b.stats.get("skipped_large", 0) + 1
+                continue
             b.cases.append(([f, out], (lambda names, f=f, out=out, which=which:
                                        "(%s, %s, %s)" % ("true" if which else "false", names[f], names[out]))))
             b.meta.append("%s: %s" % (nm, f.serialize()[:400]))
@@ -407,7 +435,12 @@ def run_timesdist(b):
                 f = b.rnd.choice([m.LE, m.LT, m.Equals])(arith(ty, 3), arith(ty, 2))
             else:
                 f = arith(t, b.rnd.randint(1, 4))
+            if tree_size(f) > 150:
+                continue
             out = TimesDistributor(env).walk(f)
+            if tree_size(out) > 1500:
+                b.stats["skipped_large"] = b.stats.get("skipped_large", 0) + 1
+                continue
             b.cases.append(([f, out], (lambda names, f=f, out=out: "(%s, %s)" % (names[f], names[out]))))
             b.meta.append(f.serialize()[:400])
             b.chk.count(("td", tocoq.skey(f)), nontrivial=out is not f)
@@ -419,7 +452,115 @@ def run_timesdist(b):
     return "From PySMT.models Require Import C10Local TimesDist.", "term * term", ok_def
 
 
-BATCHES = [("nnf", run_nnf), ("aig", run_aig), ("partition", run_partition), ("qelim", run_qelim), ("timesdist", run_timesdist)]
+def run_prenex(b):
+    from pysmt.rewritings import prenex_normal_form
+    env = Environment()
+    push_env(env)
+    try:
+        sg = SkelGen(env, b.rnd, [BOOL, BVType(1), BVType(2), BOOL, BVType(2), INT],
+                     atom_cfg=Config(quantifiers=False, arrays=False, widths=(1, 2, 3), max_arity=3))
+        m = env.formula_manager
+        x, y = sg.g.syms[BVType(2)][0], sg.g.syms[BVType(2)][1]
+        px = m.BVULT(x, y)
+        fixed = [m.And(px, m.Exists([x], m.Not(px))), m.Or(m.ForAll([x], px), m.ForAll([x], m.Not(px))),
+                 m.Iff(m.Exists([x], px), m.Exists([y], px)), m.ForAll([x], m.Implies(px, m.Exists([x], px))),
+                 m.Ite(m.Exists([x], px), m.ForAll([x], px), px)]
+        for i in range(b.n(500, 4000)):
+            f = fixed[i] if i < len(fixed) else sg.gen(b.rnd.randint(1, 4))
+            if tree_size(f) > 300:
+                continue
+            try:
+                out = prenex_normal_form(f, env)
+            except TypeError:
+                b.stats["impl_errors"] += 1     # a Boolean-sorted theory operator (array read) in a Boolean position
+                continue
+            if tree_size(out) > 1500 or sum(len(n.quantifier_vars()) for n in tocoq.topo([out]) if n.is_quantifier()) > 7:
+                b.stats["skipped_large"] = b.stats.get("skipped_large", 0) + 1     # exact quantifier evaluation would take minutes
+                continue
+            b.cases.append(([f, out], (lambda names, f=f, out=out: "(%s, %s)" % (names[f], names[out]))))
+            b.meta.append(f.serialize()[:400])
+            b.chk.count(("prenex", tocoq.skey(f)), nontrivial=out is not f)
+            b.check_equiv(f, out, "prenex_normal_form(f) does not have the value of f", "pysmt.rewritings.prenex_normal_form(<input>)")
+            if not prenex_shape(out):
+                b.chk.violation({"kind": "input", "what": "prenex_normal_form(f) is not a quantifier prefix over a quantifier-free matrix",
+                                 "input": f.serialize(), "output": out.serialize()}, key="prenex-shape:%s" % f.serialize()[:200])
+        b.chk.sample({"rewriter": "prenex", "input": b.meta[-1]})
+    finally:
+        pop_env()
+    return PRENEX_COQ
+
+
+def bound_symbols(f):
+    out = set()
+    for n in tocoq.topo([f]):
+        if n.is_quantifier():
+            out.update(n.quantifier_vars())
+    return out
+
+
+def run_proptop(b):
+    from pysmt.rewritings import propagate_toplevel, conjunctive_partition
+    for variant in (0, 1):
+        env = Environment()
+        push_env(env)
+        try:
+            cfg = Config(quantifiers=False, arrays=False, strings=False, custom=False, div=False, nonlinear=False, widths=(1, 2, 3), max_arity=3,
+                         ints=(variant == 0), reals=(variant == 1))
+            num = INT if variant == 0 else REAL
+            sg = SkelGen(env, b.rnd, [num, BVType(2), BOOL], atom_cfg=cfg)
+            m = env.formula_manager
+            g = sg.g
+            wx, wy = g.syms[BVType(2)][0], g.syms[BVType(2)][1]     # wx has the smaller node id: it is the representative
+            witness = m.And(m.Equals(wy, wx), m.Exists([wx], m.Not(m.Equals(wx, wy))))
+            for i in range(b.n(200, 2500)):
+                r = b.rnd
+                conj = []
+                for _ in range(r.choice([1, 2, 2, 3, 4])):
+                    t = r.choice([num, num, BVType(2)])
+                    pick = lambda: (r.choice(g.syms[t]) if r.random() < 0.7 else g.const(t))
+                    conj.append(m.Equals(pick(), pick()))
+                for _ in range(r.choice([0, 1, 1, 2])):
+                    conj.append(sg.gen(r.randint(0, 3)))
+                if r.random() < 0.5:
+                    # a quantifier that binds one side of a top-level equality while the other side is free below it
+                    t = r.choice([BVType(2), BVType(2), num])
+                    v, w = r.sample(g.syms[t], 2)
+                    conj = [c for c in conj if not (c.is_equals() and c.arg(0).is_constant() and c.arg(1).is_constant())]
+                    conj.append(m.Equals(v, w) if r.random() < 0.5 else m.Equals(w, v))
+                    body = r.choice([m.Equals(v, w), m.Not(m.Equals(v, w)), m.Or(m.Not(m.Equals(w, v)), sg.gen(1))])
+                    conj.append(r.choice([m.Exists, m.ForAll])([v], body))
+                r.shuffle(conj)
+                f = m.And(conj) if r.random() < 0.8 else m.And(conj[0], m.And(conj[1:])) if len(conj) > 2 else m.And(conj)
+                if i == 0:
+                    f = witness      # the _refuted witness of coq/proofs/PropTop_proofs.v, replayed on the real code
+                if tree_size(f) > 300:
+                    continue
+                out = propagate_toplevel(f, env, do_simplify=False)
+                out_s = propagate_toplevel(f, env)
+                ids = sorted(set(a for c in conjunctive_partition(f) if c.is_equals() for a in c.args()), key=lambda n: n.node_id())
+                b.cases.append(([f, out] + ids, (lambda names, f=f, out=out, ids=ids:
+                                                 "(%s, [%s], %s)" % (names[f], "; ".join(names[a] for a in ids), names[out]))))
+                b.meta.append(f.serialize()[:400])
+                b.chk.count(("proptop", tocoq.skey(f)), nontrivial=out is not f)
+                eq_syms = set(a for c in conjunctive_partition(f) if c.is_equals() for a in c.args() if a.is_symbol())
+                captured = bool(eq_syms & bound_symbols(f))
+                key = "proptop:substitution-under-binder" if captured else None
+                for o, how in ((out, "do_simplify=False"), (out_s, "default arguments")):
+                    if not b.check_equiv(f, o, "propagate_toplevel(f) (%s) does not have the value of f" % how,
+                                         "pysmt.rewritings.propagate_toplevel(<input>%s)" % (", do_simplify=False" if o is out else ""),
+                                         key=key or "proptop:%s" % f.serialize()[:200]):
+                        break
+            b.chk.sample({"rewriter": "propagate_toplevel", "input": b.meta[-1]})
+        finally:
+            pop_env()
+    return PROPTOP_COQ
+
+
+PRENEX_COQ = None
+PROPTOP_COQ = None
+
+BATCHES = [("nnf", run_nnf), ("aig", run_aig), ("partition", run_partition), ("qelim", run_qelim), ("timesdist", run_timesdist),
+           ("prenex", run_prenex), ("proptop", run_proptop)]
 
 
 def run(tier, only=None):
@@ -435,13 +576,18 @@ def run(tier, only=None):
             continue
         b = Batch(chk, random.Random(rnd.getrandbits(64)), name, tier)
         try:
-            imports, ctype, ok_def = fn(b)
+            coq = fn(b)
         except Exception:   # noqa - an exception of the implementation outside the modelled domain
             chk.note("batch %s aborted: %s" % (name, traceback.format_exc()[-1500:]))
             chk.violation({"kind": "obligation", "theorem_or_correspondence": "batch %s raised: %s" % (name, traceback.format_exc()[-800:])},
                           found_input=False)
             continue
         batches[name] = b
+        if coq is None:
+            corr[name] = dict(b.stats, cases=len(b.cases), correspondence="not modelled in Coq yet: SEARCH oracle only")
+            chk.note("%s: %d cases, oracle comparisons %d (oracle only)" % (name, len(b.cases), b.stats["oracle_checked"]))
+            continue
+        imports, ctype, ok_def = coq
         files_of[name] = termcases.write(chk.dir, name, imports, ctype, ok_def, b.cases, shard=100)
         chk.note("%s: %d cases generated, oracle comparisons %d" % (name, len(b.cases), b.stats["oracle_checked"]))
     disagreements = []
